@@ -158,7 +158,14 @@ def reset_globals():
 
 def fresh_ctx(inputs=(), **attrs) -> Context:
     ctx = Context()
-    ctx.inputs[0][0] = list(inputs)
+    # the program's inputs, set the way main.execute_vyxal sets them on the pinned tree; a tree that has
+    # reorganised the input scopes behind an API is followed as far as the names are recognisable
+    if hasattr(ctx, "inputs"):
+        ctx.inputs[0][0] = list(inputs)
+    elif hasattr(ctx, "set_program_inputs"):
+        ctx.set_program_inputs(list(inputs))
+    else:
+        raise RuntimeError("harness: do not know how to give a Context its program inputs on this tree")
     for k, v in attrs.items():
         setattr(ctx, k, v)
     return ctx
